@@ -10,14 +10,16 @@ FEATARG=""; [ -n "$FEAT" ] && FEATARG="--features $FEAT"
 {
 echo "== patch: $PATCH"
 git apply "$PATCH" || { echo "RESULT patch_does_not_apply"; exit 0; }
-cargo nextest run --workspace --no-fail-fast --offline 2>&1 | grep -E "Summary|error" | head -3
-cargo nextest run --workspace --no-fail-fast --all-features --offline 2>&1 | grep -E "Summary|error" | head -3
+echo "-- existing suite, default features, WITH change:"
+cargo nextest run --workspace --no-fail-fast --offline 2>&1 | grep -E "^\s+Summary|^error(\[|:)" | head -3
+echo "-- existing suite, all features, WITH change:"
+cargo nextest run --workspace --no-fail-fast --all-features --offline 2>&1 | grep -E "^\s+Summary|^error(\[|:)" | head -3
 name=$(basename "$DEMO" .rs)
 cp "$DEMO" tests/$name.rs
 echo "-- demo WITH change:"
-cargo nextest run --no-fail-fast --offline $FEATARG --test $name 2>&1 | grep -E "Summary|error(\[|:)" | head -3
+cargo nextest run --no-fail-fast --offline $FEATARG --test $name 2>&1 | grep -E "^\s+Summary|^error(\[|:)" | head -3
 git checkout -q -- .
 echo "-- demo WITHOUT change:"
-cargo nextest run --no-fail-fast --offline $FEATARG --test $name 2>&1 | grep -E "Summary|error(\[|:)" | head -3
+cargo nextest run --no-fail-fast --offline $FEATARG --test $name 2>&1 | grep -E "^\s+Summary|^error(\[|:)" | head -3
 rm -f tests/$name.rs
 } > "$OUT" 2>&1
